@@ -195,7 +195,10 @@ def oracle(c, r):
                 yield ("station-by-vertex", "at_length(lengths[%d]) gives (index, fraction) = (%r, %r); the vertex station is %r" % (kv, i, f, want))
         # same place by fraction
         t = q["at_fraction"]
-        if t is not None and (t["index"] != i or abs(t["fraction"] - f) > 1e-9) and 1e-9 < f < 1 - 1e-9:
+        edge_len = lens[i + 1] - lens[i]
+        # compare in arc-length units: l/L*L differs from l by rounding of the whole length, which a short edge magnifies
+        if t is not None and (abs(t["length_along"] - s["length_along"]) > 1e-9 * scale or
+                              (t["index"] != i and min(f, 1 - f) * edge_len > 1e-9 * scale)):
             yield ("station-by-fraction", "at_fraction(%r) gives (%r, %r), at_length(%r) gives (%r, %r)" % (q["f"], t["index"], t["fraction"], l, i, f))
     if k == "c01.curve2":
         for j, s in enumerate(r["iter"]):
